@@ -92,8 +92,9 @@ def gen_case(rng):
         la = rng.choice(SPECIAL_FLOATS)
     if tb == "Float" and rng.random() < 0.1:
         lb = rng.choice(SPECIAL_FLOATS)
-    if op == "**" and tb == "Int":
-        lb = rng.choice(["0", "1", "2", "3", "10", "-1", "-2", "64"])
+    if op == "**":
+        # sized-integer `**` multiplies in a loop of `exponent` iterations and BigFloat `**` is slow: small exponents only
+        lb = rng.choice(["0", "1", "2", "3", "10", "-1", "-2", "64"]) if tb == "Int" else rng.choice(KINDS[tb][:3])
     if op in ("<<", ">>", "<<<", ">>>") and tb == "Int":
         lb = rng.choice(["0", "1", "3", "63", "64", "65", "-1", "-3", "127"])
     if op == "*" and ta in ("String", "Char"):
@@ -246,7 +247,7 @@ def run(ctx):
         rng = ctx.rng
         cases = []
         seen = set()
-        n = ctx.n(120, 3000)
+        n = ctx.n(120, 3500)
         tries = 0
         while len(cases) < n and tries < n * 20:
             tries += 1
@@ -264,7 +265,10 @@ def run(ctx):
                 lines.append(mk_line(*c, desc))
                 ctx.stat("op:" + c[0])
                 ctx.stat("left:" + c[1])
-    impl = vlib.run_impl(lines, timeout=1200)
+    # a fresh worker per chunk: every compiled program leaves definitions in the process-global environment
+    impl = []
+    for i in range(0, len(lines), 250):
+        impl += vlib.run_impl(lines[i:i + 250], timeout=1200)
     model = vlib.run_model(lines)
     ok = True
     reported = 0
